@@ -65,4 +65,5 @@ def main():
     json.dump([dict(id=a, property=b, mutant=c, verdict=d, signature=e, seconds=f) for a, b, c, d, e, f in results],
               open(os.path.join(os.path.dirname(os.path.abspath(__file__)), "results.json"), "w"), indent=1)
 
-main()
+if __name__ == "__main__":
+    main()
